@@ -35,6 +35,21 @@ def live_records(w) -> dict[str, list[tuple[str, int, float, str]]]:
     return out
 
 
+def macro_called_outside_its_block(tree: model.MNode) -> bool:
+    """A macro is defined inside a Block and called from outside that block (context of a known defect: the body's lines
+    count as lines of the ended block and are skipped)."""
+    for mac in tree.walk():
+        if mac.kind != "Macro":
+            continue
+        blk = next((a for a in mac.ancestors() if a.kind == "Block"), None)
+        if blk is None:
+            continue
+        inside = {x.id for x in blk.walk()}
+        if any(c.kind == "Call macro" and c.arg == mac.arg and c.id not in inside for c in tree.walk()):
+            return True
+    return False
+
+
 def in_repeating_scope(n: model.MNode) -> bool:
     return any(a.kind in ("Alarm", "Macro") for a in n.ancestors())
 
@@ -559,7 +574,8 @@ class C02Order(Oracle):
         if exp is not None and getattr(w, "quiescent", False):
             got = [tok for _, tok in fx]
             if got != exp:
-                self.v("C02", "C02.effect_sequence_differs_from_reference", "main",
+                ctx = "@macro_defined_in_ended_block" if macro_called_outside_its_block(self.tree) else ""
+                self.v("C02", "C02.effect_sequence_differs_from_reference" + ctx, "main",
                        f"effects {got[:12]} expected {exp[:12]}")
             else:
                 self.res.probe("reference_walk_matched")
@@ -570,6 +586,7 @@ class C02Order(Oracle):
         macros: dict[str, model.MNode] = {}
         out: list[tuple] = []
         ok = True
+        stack: list[str] = []
 
         def walk(nodes):
             nonlocal ok
@@ -597,11 +614,15 @@ class C02Order(Oracle):
                 elif n.kind == "Macro":
                     macros[n.arg] = n
                 elif n.kind == "Call macro":
+                    # the callee is resolved by name when the call executes: the definition in force at that moment,
+                    # also for a call inside another macro's body; a cycle ends in an error pause (outside the fragment)
                     m = macros.get(n.arg)
-                    if m is None or any(c.kind == "Call macro" for c in m.walk()):
+                    if m is None or n.arg in stack or len(stack) > 6:
                         ok = False
                         return
+                    stack.append(n.arg)
                     walk(m.children)
+                    stack.pop()
                 else:
                     ok = False
                     return
@@ -624,6 +645,8 @@ class C03Thresholds(Oracle):
         self.exact = all(op[0] != "tick" or abs(op[2] - 0.1) < 1e-12 for op in plan["ops"])
         self.no_requests = not any(op[0] in ("edit", "inject", "cancel", "force") for op in plan["ops"])
         self.disturbed_ticks: set[int] = set()
+        self.calls_from_interrupts = any(c.kind == "Call macro" and any(a.kind in ("Watch", "Alarm") for a in c.ancestors())
+                                         for c in self.tree.walk())
 
     def before_tick(self, w, inc):
         self.before[w.tick_no] = {"BT": w.tag("Block Time"), "ST": w.tag("Scope Time"), "blk": w.tag("Block"),
@@ -689,7 +712,10 @@ class C03Thresholds(Oracle):
             n = self.nodes.get(nid)
             if n is None or n.threshold is None:
                 continue
-            if in_repeating_scope(n) or any(a.kind in ("Watch",) for a in n.ancestors()):
+            in_macro_only = any(a.kind == "Macro" for a in n.ancestors()) and not any(a.kind in ("Alarm", "Watch")
+                                                                                   for a in n.ancestors())
+            if (in_repeating_scope(n) and not (in_macro_only and not self.calls_from_interrupts)) or \
+                    any(a.kind in ("Watch",) for a in n.ancestors()):
                 inter = True
             else:
                 inter = False
@@ -697,7 +723,15 @@ class C03Thresholds(Oracle):
             forced = any(s[0] == "forced" for s in states)
             if not started or forced:
                 continue
-            k = started[0][1]
+            # a line of a macro body is judged in every invocation (the base in force may differ from call to call)
+            for k in ([s[1] for s in started] if in_macro_only and not inter else [started[0][1]]):
+                self._never_early(n, states, k, inter)
+        self._wait_durations(w, recs)
+
+    def _never_early(self, n, states, k, inter):
+        if True:
+            if True:
+                pass
             # the threshold test that let the instruction pass ran in tick k or k-1 (entered one tick, effect the next)
             ok = False
             detail = ""
@@ -731,6 +765,7 @@ class C03Thresholds(Oracle):
                 self.res.probe("threshold_checked")
                 if not inter and self.exact and n.kind != "Block":     # a Block may also wait for the block lock
                     self._not_late(n, states, k)
+    def _wait_durations(self, w, recs):
         if not self.exact:
             return
         # Wait durations (exact 0.1 s ticks, main path, no pause/hold/error overlap)
@@ -781,8 +816,9 @@ class C03Thresholds(Oracle):
         threshold (the engine compares the decimal strings), and it starts in tick j + 1. Judged only when every tick from
         a to k was a Running tick."""
         import decimal
-        aw = [x for x in states if x[0] == "awaitingthreshold"]
-        if not aw or len([x for x in states if x[0] == "started"]) != 1:
+        inst = next((x[3] for x in states if x[0] == "started" and x[1] == k), None)
+        aw = [x for x in states if x[0] == "awaitingthreshold" and x[3] == inst]
+        if not aw or len([x for x in states if x[0] == "started" and x[3] == inst]) != 1:
             return
         a = aw[0][1]
         if any(t in self.disturbed_ticks for t in range(a - 1, k + 1)):
@@ -1145,6 +1181,7 @@ class C41Macros(Oracle):
         self._recursion_check(w)
         if not any(r[1] in ("edit", "inject", "cancel", "force") for r in w.requests[1:]):
             self._cycle_closed_by_redefinition(w)
+            self._reference_for_macros(w)
         if not self.enabled:
             return
         # main-path macro calls in the fragment without interrupts: body tokens appear once per call, in order
@@ -1185,10 +1222,33 @@ class C41Macros(Oracle):
         for tok in body_tokens - outside:
             # a token may belong to several definitions of one macro name; compare totals
             if got.get(tok, 0) != exp_counts.get(tok, 0) and tok[0] == "mark":
-                self.v("C41", "C41.macro_body_count_mismatch", "Macro",
+                ctx = "@macro_defined_in_ended_block" if macro_called_outside_its_block(self.tree) else ""
+                self.v("C41", "C41.macro_body_count_mismatch" + ctx, "Macro",
                        f"token {tok} seen {got.get(tok, 0)} times, expected {exp_counts.get(tok, 0)} from completed calls")
         self.res.probe("macro_calls_checked", calls)
 
+    def _reference_for_macros(self, w):
+        """In the interrupt-free fragment the effects of macro body lines come exactly as the source-order expansion says:
+        every call (also one inside another macro's body) runs the definition of that name in force when it executes."""
+        if not getattr(w, "quiescent", False):
+            return
+        ref = C02Order(self.w, self.plan, self.res)
+        if not ref.enabled:
+            return
+        exp = ref._reference()
+        if exp is None:
+            return
+        body = {c.token for m in self.tree.walk() if m.kind == "Macro" for c in m.walk() if c.token}
+        got = [(e[1], e[2]) for e in w.effects if (e[1], e[2]) in body]
+        want = [t for t in exp if t in body]
+        if got != want:
+            ctx = "@macro_defined_in_ended_block" if macro_called_outside_its_block(self.tree) else ""
+            i = next((k for k, (a, b) in enumerate(zip(got, want)) if a != b), min(len(got), len(want)))
+            self.v("C41", "C41.macro_body_sequence_differs_from_definitions_in_force" + ctx, "Macro",
+                   f"effects of macro body lines {got[max(0, i - 3):i + 3]} (position {i}), expansion with the definitions in "
+                   f"force at each call gives {want[max(0, i - 3):i + 3]}")
+        else:
+            self.res.probe("macro_body_sequence_matched")
 
 # ---------------------------------------------------------------------------------------------- C01
 class C01Edits(Oracle):
